@@ -572,7 +572,7 @@ func Explore(r *vreport.Report, cfg Config) {
 			}
 		}
 		if !capped {
-			r.Max("deviation_bound_completed_"+cfg.Name, int64(k))
+			r.Max("deviation_bound_completed", int64(k))
 		}
 		levels[k] = nil
 	}
